@@ -185,6 +185,15 @@ def group_jobs():
     out.append({"kind": "WeightedL1GroupL2", "alpha": 0.5, "weights_groups": [0.0, 1.0, 2.0],
                 "weights_features": [1.0, 0.2, 0.6, 0.0, 1.3, 0.8], "grp_ptr": ptr,
                 "grp_indices": idx})
+    # interleaved / permuted groups: grp_indices is not the identity
+    pidx = [4, 0, 2, 5, 1, 3]
+    out.append({"kind": "WeightedL1GroupL2", "alpha": 1.0, "weights_groups": [1.0, 0.5, 0.25],
+                "weights_features": [0.3, 1.1, 0.05, 0.7, 1.9, 0.45], "grp_ptr": ptr,
+                "grp_indices": pidx})
+    out.append({"kind": "WeightedGroupL2", "alpha": 1.0, "weights": [1.0, 0.5, 2.0], "grp_ptr": ptr,
+                "grp_indices": pidx, "positive": False})
+    out.append({"kind": "WeightedGroupL2", "alpha": 1.0, "weights": [0.7, 0.0, 1.5], "grp_ptr": ptr,
+                "grp_indices": pidx, "positive": True})
     return out
 
 
